@@ -1290,7 +1290,17 @@ def mk_dataset(P, variables, name='DS', axes=None):
     ds.methods['to_dict'] = lambda itp, o, a, k: dict(o.attrs['_dict'])
 
     def copy(itp, o, a, k):
-        c = mk_dataset(P, dict(o.attrs['_dict']), 'copy(%s)' % o.name, axes=[x.methods['copy'](itp, x, [], {}) for x in o.attrs['axes'].attrs['_list']])
+        newaxes = [x.methods['copy'](itp, x, [], {}) for x in o.attrs['axes'].attrs['_list']]
+
+        def clone(v):
+            # the copy holds its own variables, on its own axes
+            if not (isinstance(v, Obj) and 'dims' in v.attrs and v.hooks.get('open')):
+                return v
+            n = var_stub(v.name if v.name.startswith('copy(') else 'copy(%s)' % v.name, v.attrs['dims'])
+            n.attrs['attrs'] = v.attrs.get('attrs')
+            n.attrs['axes'] = mk_axes([x for x in newaxes if x.attrs['name'] in v.attrs['dims']])
+            return n
+        c = mk_dataset(P, dict((kk, clone(vv)) for kk, vv in o.attrs['_dict'].items()), 'copy(%s)' % o.name, axes=newaxes)
         c.attrs['attrs'] = o.attrs['attrs']
         return c
     ds.methods['copy'] = copy
@@ -2203,7 +2213,9 @@ def sc_item_dispatch(P, which):
                 # a copy: another array with the content of its source at that moment (the writes received so far included)
                 c = target(own, option)
                 c.name = 'COPY'
-                c.attrs['_log'] = list(o.attrs['_log'])
+                shallow = a[0] if a else k.get('shallow', False)
+                # a shallow copy shares its values with the source: what is written into one is written into the other
+                c.attrs['_log'] = o.attrs['_log'] if shallow is not False else list(o.attrs['_log'])
                 return c
             arr.methods['copy'] = copy
             return arr
@@ -2268,6 +2280,8 @@ def sc_item_dispatch(P, which):
             case('inplace=False, broadcast', [IDX] + extra, {'inplace': False, 'broadcast': True})
             case('inplace=False, N-d mask', [nd_mask()] + extra, {'inplace': False})
             case('inplace=False, array flag: broadcast', [IDX] + extra, {'inplace': False}, own=True)
+            case('inplace=False, cast=True', [IDX] + extra, {'inplace': False, 'cast': True})
+            case('inplace=False, cast=True, N-d mask', [nd_mask()] + extra, {'inplace': False, 'cast': True})
         return out
     return gen
 
@@ -2324,6 +2338,10 @@ def sc_locate_slice_strict(P):
         for start in (None, 'a', 'c', 'e'):
             for stop in (None, 'a', 'b', 'c', 'd', 'e'):
                 out.append(('start %r, stop %r, step %r' % (start, stop, step), lambda start=start, stop=stop, step=step: ([tok('VALUES'), start, stop, step], {}, {'overrides': ov()})))
+    # labels that are false in a boolean context are labels like any other (an omitted bound is None, nothing else)
+    where.update({0: 1, '': 3, 0.0: 1})
+    for start, stop, step in ((0, 'c', None), ('a', 0, None), (0, 0, None), ('', 'e', None), ('a', '', None), (0, None, -1), (None, 0, -1)):
+        out.append(('falsy label: start %r, stop %r, step %r' % (start, stop, step), lambda start=start, stop=stop, step=step: ([tok('VALUES'), start, stop, step], {}, {'overrides': ov()})))
     out.append(('absent start label', lambda: ([tok('VALUES'), 'q', 'c', None], {}, {'overrides': ov()})))
     out.append(('absent stop label', lambda: ([tok('VALUES'), 'a', 'q', None], {}, {'overrides': ov()})))
     out.append(('absent stop label, negative step', lambda: ([tok('VALUES'), None, 'q', -1], {}, {'overrides': ov()})))
@@ -2355,6 +2373,9 @@ def sc_maybe_delete_axes(P):
     case('two unused candidates', V, ('x', 'y', 'z', 'w'), ['z', 'w'])
     case('in use, unused, in use, unused', V, ('x', 'z', 'y', 'w'), ['x', 'z', 'y', 'w'])
     case('dataset without variables', (), ('x', 'y'), ['x', 'y'])
+    case('two unused candidates, listed in reverse order', V, ('x', 'y', 'z', 'w'), ['w', 'z'])
+    case('unused candidates around one in use, other order', V, ('z', 'x', 'w', 'y'), ['w', 'x', 'z'])
+    case('three adjacent unused candidates', (('a', ('x',)),), ('x', 'y', 'z', 'w'), ['y', 'z', 'w'])
     return out
 
 
